@@ -67,6 +67,8 @@ CLAIMED["C04"] = dict(level="model_checking", technique=COERCE_TECH, note=COERCE
                       text="(type expression) x (value trees over 24 named numeric points, strings, symbols, null) x (literal / variable of each Go kind / variable default / nested in list or input object): the arguments the capturing resolver receives are compared by Go kind and value with Coerce!CoerceIn, or non-invocation plus the error entry when the specification rejects")
 CLAIMED["C05"] = dict(level="model_checking", technique=COERCE_TECH, note=COERCE_NOTE, design="DESIGN.md §6 C05",
                       text="(declared leaf type incl. lists and typed slices) x (Go value kind x named point, numeric and non-numeric strings, wrong kinds, nil pointers, Symbol, time.Time): response data after WriteJSONValue + encoding/json must have the shape Coerce!CoerceOut prescribes (null plus one error where it cannot be represented)")
+CLAIMED["C15"] = dict(level="model_checking", technique="TLC enumerates the textual cases (MCPrint.tla: strings over a character-class alphabet at every description and default site, numeric and nested defaults) with the outcome Loader.tla prescribes; each case goes through load / print / load / read-back / print on real roots and through ggqlgen -w/-e", note=SCHEMA_NOTE, design="DESIGN.md §6 C15",
+                      text="for every enumerated accepted schema: the printed SDL (whole root and per type) is accepted by a fresh root, reads back as the same canonical schema, and prints to the same text again; ggqlgen -w and -e outputs define the same schema")
 
 NOT_YET = {
 }
